@@ -597,6 +597,45 @@ def gen_spec(rng, nmax=7, acyclic=False) -> dict:
     return inp
 
 
+def gen_core(rng, nmax=7, acyclic=True) -> dict:
+    """documents of the fragment C02_partial is proved for (acyclic: references only to later names of a hidden order)"""
+    names = rng.sample(NAMES, rng.randint(2, min(nmax, len(NAMES))))
+    ckeys = [k for k in KEYS]
+
+    def item(tg):
+        r = rng.random()
+        return ["ref", rng.choice(tg)] if (tg and r < .6) else (["enum"] if r < .7 else ["prim", rng.choice(PRIMS)])
+
+    def prop(tg):
+        r = rng.random()
+        if tg and r < .45:
+            return ["ref", rng.choice(tg)]
+        if r < .7:
+            return ["arr", item(tg)]
+        return ["prim", rng.choice(PRIMS)]
+
+    def obj(tg):
+        ks = rng.sample(ckeys, rng.randint(0, 4))
+        return ["obj", [[k, prop(tg)] for k in ks], [k for k in ks if rng.random() < .5]]
+    out = []
+    for i, nm in enumerate(names):
+        tg = (names[i + 1:] if acyclic else names)
+        r = rng.random()
+        if r < .55:
+            nd = obj(tg)
+        elif r < .8 and tg:
+            nd = ["allof", [["ref", rng.choice(tg)] for _ in range(rng.randint(1, 2))] + ([obj(tg)] if rng.random() < .8 else [])]
+        elif r < .88:
+            nd = ["enum"]
+        elif r < .94:
+            nd = ["prim", rng.choice(PRIMS)]
+        else:
+            nd = ["arr", item(tg)]
+        out.append([nm, nd])
+    rng.shuffle(out)
+    return {"schemas": out}
+
+
 def gen_malformed(rng) -> dict:
     """outside the model's name domain / shape domain: oracle only"""
     weird = ["A", "AB", "userGroup", "user_group", "Next", "S1a", "Üser"]
@@ -659,7 +698,9 @@ def build_inputs(chk: Check) -> list[dict]:
     n = 2500 if chk.thorough else 260
     inputs += [gen_spec(rng, 7) for _ in range(n)]
     inputs += [gen_spec(rng, 7, acyclic=True) for _ in range(n // 3)]
-    inputs += [chain(6, 3), chain(8, 150), chain(5, 4)]
+    inputs += [gen_core(rng, 7, acyclic=True) for _ in range(n // 3)]
+    inputs += [gen_core(rng, 5, acyclic=False) for _ in range(n // 6)]
+    inputs += [chain(6, 3), chain(8, 150), chain(5, 4), chain(30, 150)]
     inputs += [gen_malformed(rng) for _ in range(n // 6)]
     return inputs
 
@@ -721,6 +762,8 @@ def main(chk: Check, replay: dict | None = None) -> int:
         "load_errors": sum(1 for c in cases if isinstance(c["obs"], str)),
         "oracle_failures": sum(1 for c in cases if c["oracle_fail"]),
         "generated_dataclass_checks": pstat,
+        "in_C02_partial_fragment": sum(1 for c in dom if in_theorem_fragment(c["input"])),
+        "in_C02_partial_fragment_oracle_failures": sum(1 for c in dom if in_theorem_fragment(c["input"]) and c["oracle_fail"]),
         "with_placeholder": sum(1 for c in cases if not isinstance(c["obs"], str) and any(r[2] for r in c["obs"])),
     }
     for c in cases[:2] + cases[-2:]:
@@ -805,6 +848,32 @@ def capture_possible(schemas: list) -> bool:
     for n, nd in schemas:
         walk(n, nd)
     return len(names) != len(set(names))
+
+
+def in_theorem_fragment(inp: dict) -> bool:
+    """Python rendering of core_spec && exists rk, ranked_b && depth_ok (the hypothesis of C02_partial); only used
+    to MEASURE how many generated inputs the theorem speaks about."""
+    spec = {n: nd for n, nd in inp["schemas"]}
+
+    def item(x):
+        return x[0] in ("ref", "prim", "enum")
+
+    def prop(x):
+        return x[0] in ("ref", "prim") or (x[0] == "arr" and item(x[1]))
+
+    def obj(x):
+        return x[0] == "obj" and all(prop(b) for _, b in x[1])
+
+    def top(x):
+        return (obj(x) or (x[0] == "allof" and all(m[0] == "ref" or obj(m) for m in x[1]))
+                or x[0] in ("prim", "enum") or (x[0] == "arr" and item(x[1])))
+    names, keys = all_names(inp["schemas"])
+    if not all(top(nd) for nd in spec.values()) or keys & set(spec) or not names <= set(spec):
+        return False
+    if has_ref_cycle(spec):
+        return False
+    md = inp.get("max_depth") or 150
+    return 4 * len(spec) + 4 <= md
 
 
 def has_ref_cycle(spec: dict) -> bool:
